@@ -1,12 +1,17 @@
 /- Line-protocol driver for the C07 registry model (one JSON object per line).
    {"op":"reset"}                         -> ok
-   {"op":"enter","site":{…}}              -> hit|miss <idx> <name> <domain> <nIn> <nOut>
+   {"op":"enter","site":{…}}              -> hit|miss <idx> <name> <domain> <nIn> <nOut> <k> <q> <i> <c>
+                                             (k/q/i/c = number of the first call site since `reset` whose whole
+                                              key / qualified_name / input_sig / capture_sig equals this site's)
+   {"op":"alloc","ns":[…],"base":"…","unique":b} -> <name> <domain>   (`_allocate_friendly_name` on the
+                                              counter table of the current state, decimal counters)
    {"op":"exit"}                          -> ok
    {"op":"keyeq","a":{…},"b":{…}}         -> true|false      (mkKey a = mkKey b)
    The state of the registry machine persists between lines until `reset`.
 -/
 import Lean.Data.Json
 import J2O.Model.C07
+import J2O.Model.C07Key
 open Lean J2O.C07
 
 /-- executable digest, injective on byte lists (base-257 positional with offset 1) -/
@@ -96,8 +101,19 @@ def handle (st : St) (line : String) : St × String :=
         let st' := step dig dig st (.enter c)
         match st'.log with
         | e :: _ =>
-          (st', s!"{if e.hit then "hit" else "miss"} {e.d.idx} {e.d.name} {renderDomain e.d.domain} {e.d.nIn} {e.d.nOut}")
+          let sites := st'.log.reverse
+          let kc := sites.findIdx (fun e' => decide (e'.key = e.key))
+          let qc := sites.findIdx (fun e' => decide (e'.key.qname = e.key.qname))
+          let ic := sites.findIdx (fun e' => decide (e'.key.inSig = e.key.inSig))
+          let cc := sites.findIdx (fun e' => decide (e'.key.capSig = e.key.capSig))
+          (st', s!"{if e.hit then "hit" else "miss"} {e.d.idx} {e.d.name} {renderDomain e.d.domain} {e.d.nIn} {e.d.nOut} {kc} {qc} {ic} {cc}")
         | [] => (st', "internal-error")
+    | .ok "alloc" =>
+      match j.getObjVal? "ns" >>= strs, j.getObjValAs? String "base", j.getObjValAs? Bool "unique" with
+      | .ok ns, .ok base, .ok u =>
+        let r := allocate Nat.repr st.counters ⟨ns, base, u⟩
+        ({ st with counters := r.2 }, s!"{r.1.1} {".".intercalate r.1.2}")
+      | _, _, _ => (st, "bad-alloc")
     | .ok "keyeq" =>
       match j.getObjVal? "a" >>= parseSite, j.getObjVal? "b" >>= parseSite with
       | .ok a, .ok b => (st, toString (decide (mkKey dig dig a = mkKey dig dig b)))
